@@ -120,6 +120,12 @@ func reference(cli, root string, c GCase) coreRef {
 		ref.Kind = "panic"
 	default:
 		ref.Kind = "error"
+		// the generator stage (goimports / gofmt on the emitted text) failed: with -print the unformatted text is shown
+		if len(ref.Stderr) > 0 && (ref.Stderr[0] == "error on optimizing imports of the generated code." ||
+			ref.Stderr[0] == "error on formatting the generated code.") {
+			ref.Kind = "formatError"
+			ref.Bytes = strings.TrimSuffix(r.Stdout, "\n")
+		}
 	}
 	return ref
 }
@@ -216,6 +222,15 @@ func init() {
 		defer os.RemoveAll(root)
 		// base cases: accepted and rejected
 		var bases []GCase
+		if *prop == "C15" || *prop == "C18" {
+			// a run that passes parser and builder and fails in the generator stage (the emitted text does not parse):
+			// the failure comes after everything convergen decides itself, right before the output would be written
+			bases = append(bases, GCase{Name: "fmtfail", Setup: "fmtfail/setup.go", Profile: "simple", Features: []string{"fails-in-generator-stage"},
+				Files: map[string]string{
+					"fmtfail/setup.go": "//go:build convergen\n\npackage fmtfail\n\ntype Convergen interface {\n\t// :literal A \"open\n\tConv(*S) *D\n}\n",
+					"fmtfail/types.go": "package fmtfail\n\ntype S struct{ A string }\ntype D struct{ A string }\n",
+				}})
+		}
 		for i := 0; len(bases) < *nBases && i < 20**nBases; i++ {
 			prof := "simple"
 			if i%5 == 4 {
